@@ -23,6 +23,7 @@ from harness.tla_values import to_tla
 from phonopy import Phonopy
 from phonopy.phonon.dos import TotalDos, ProjectedDos
 from phonopy.phonon.tetrahedron_mesh import TetrahedronMesh
+from phonopy.structure.tetrahedron_method import TetrahedronMethod
 
 TOL_POINT = 1e-9      # point-wise agreement with the definition, relative to the largest value
 TOL_QUAD = 5e-2       # quadrature statements (trapezoid on a fine grid), relative to the number of bands
@@ -389,6 +390,70 @@ def run_session(ctx, entry, S, mesh_numbers, k, mg):
         for method in ("tetrahedron", "normal"):
             attempt(dict(op="projected", kind=kind, method=method), lambda st, k_=kind, m_=method: projected(st, k_, m_))
 
+    # ---- frequency grids that are not ascending ----------------------------------------
+    from phonopy.phonon.dos import run_tetrahedron_method_dos
+
+    def kernel_dos(mesh_obj, fr, points, coef=None):
+        tm_ = TetrahedronMethod(np.linalg.inv(ph.primitive.cell), mesh=mesh_obj.mesh_numbers)
+        out = run_tetrahedron_method_dos(mesh_obj.mesh_numbers, np.array(points, dtype="double"), fr,
+                                         mesh_obj.grid_address, mesh_obj.grid_mapping_table, tm_.tetrahedra, coef=coef)
+        return np.array(out).T if coef is not None else np.array(out)
+
+    def rel(a, b):
+        return float(np.max(np.abs(a - b)) / max(float(np.max(np.abs(b))), 1e-12))
+
+    def reordered(st, what, method, order):
+        lo, hi = fmin - 0.03 * span, fmax + 0.06 * span
+        co = coefficients(eig, "atoms") if what == "projected" else None
+        if order == "descending":      # through the API: freq_min > freq_max, negative pitch
+            kw = dict(freq_min=hi, freq_max=lo, freq_pitch=-(hi - lo) / 40.0)
+            sigma = None if method == "tetrahedron" else sig["normal"]
+            if what == "total":
+                ph.run_total_dos(sigma=sigma, **kw)
+                d = ph.get_total_dos_dict()
+                fp, val = np.array(d["frequency_points"]), np.array(d["total_dos"])
+            else:
+                ph.run_projected_dos(sigma=sigma, **kw)
+                d = ph.get_projected_dos_dict()
+                fp, val = np.array(d["frequency_points"]), np.array(d["projected_dos"])
+            if len(fp) < 30 or not np.all(np.diff(fp) < 0):
+                raise tlcmod.MachineryError("descending window did not give a descending grid: %r" % fp[:5])
+        else:                           # shuffled with a repeated point: kernel function and TetrahedronMesh
+            pts = np.linspace(lo, hi, 37)
+            fp = pts[rng.permutation(len(pts))]
+            fp = np.concatenate([[pts[-1], pts[3]], fp, [pts[3]]])
+            val = kernel_dos(mo, freqs, fp, co)
+            thm = TetrahedronMesh(ph.primitive, freqs, mo.mesh_numbers, np.array(mo.grid_address, dtype="int64"),
+                                  np.array(mo.grid_mapping_table, dtype="int64"), mo.ir_grid_points)
+            thm.set(value="I", frequency_points=fp)
+            acc = np.zeros(len(fp)) if co is None else np.zeros((co.shape[1], len(fp)))
+            for i, iw in enumerate(thm):
+                acc += np.sum(iw * mo.weights[i], axis=1) if co is None else np.dot(iw * mo.weights[i], co[i].T).T
+            st["meshRoute"] = cls(rel(acc, val), TOL_POINT)
+        st["npoints"] = int(len(fp))
+        st["finite"] = bool(np.all(np.isfinite(val)))
+        st["nonneg"] = bool(st["finite"] and val.min() >= -1e-12 * max(1.0, float(np.max(np.abs(val)))))
+        if method == "tetrahedron":
+            res = best_match(val, lambda dd: def_dos_thm(def_gp_weights("I", tup[dd][0], fp), tup[dd][1], tup[dd][2], co))
+            asc = np.argsort(fp, kind="stable")
+            ref = kernel_dos(mo, freqs, fp[asc], co)          # the real code on the same points, ascending
+            same = rel(val[..., asc], ref)
+        else:
+            res = rel(val, def_dos_smear("normal", sig["normal"], freqs, mo.weights, fp, co))
+            same = res   # the smearing reference is evaluated point by point
+        st["matches"] = cls(res, TOL_POINT)
+        st["sameAsAscending"] = cls(same, TOL_POINT)
+        if st.get("meshRoute", "ok") != "ok":
+            st["sameAsAscending"] = st["meshRoute"]
+        mg.note("reordered grid point-wise", res, TOL_POINT)
+        mg.note("reordered grid vs ascending", same, TOL_POINT)
+
+    for what, method, order in (("total", "tetrahedron", "descending"), ("projected", "tetrahedron", "descending"),
+                                ("total", "tetrahedron", "shuffled"), ("projected", "tetrahedron", "shuffled"),
+                                ("total", "normal", "descending")):
+        attempt(dict(op="reordered", kind=what, method=method, order=order),
+                lambda st, a=what, b=method, c=order: reordered(st, a, b, c))
+
     # ---- symmetry-reduced grid ----------------------------------------------------
     attempt(dict(op="mesh", symmetry=True), lambda st: ph.run_mesh(
         mesh_numbers, with_eigenvectors=False, is_mesh_symmetry=True, is_gamma_center=gamma))
@@ -424,6 +489,7 @@ INVARIANT ImplCumulativeAtBottom
 INVARIANT ImplCumulativeMonotone
 INVARIANT ImplDensityIsDerivative
 INVARIANT ImplIntegral
+INVARIANT ImplOrderIndependent
 INVARIANT ImplAdditive
 INVARIANT ImplProjectionCount
 """
@@ -437,7 +503,8 @@ def run(ctx):
         ses = run_session(ctx, entry, S, mesh_numbers, k, mg)
         sessions.append(ses)
         for st in ses["steps"]:
-            ctx.count(("api", ses["name"], st["op"], st.get("method"), st.get("kind"), st.get("grid"), st.get("reduced")))
+            ctx.count(("api", ses["name"], st["op"], st.get("method"), st.get("kind"), st.get("grid"), st.get("reduced"),
+                       st.get("order")))
     ctx.traces += len(sessions)
     ctx.extra["E_sessions"] = [dict(name=s["name"], steps=len(s["steps"]), diag_candidates=s.get("diag_candidates"),
                                     n_ir=s.get("n_ir")) for s in sessions]
